@@ -137,6 +137,15 @@ class C07(fw.Prop):
             # ... claiming a title that is not 8 bytes, or with a text too short to hold a tag (refused before any tag is checked)
             for j, t in enumerate(("58585800000009", "585858000000000909", "58")):
                 out.append(("aare-odd-title", ["recv", ["aare", "0", "5", t, "d1d2d3d4d5d6d7d8", f"glo:{sc}:{fresh + 10 + j}:junk:{5 + j}"], None, "bad-tag"]))
+            # ... naming no title at all (the remembered one is used, and stays remembered)
+            out.append(("aare-no-title", ["recv", ["aare", "0", "5", "none", "d1d2d3d4d5d6d7d8", f"glo:{sc}:{fresh + 16}:junk:9"], None, "bad-tag"]))
+            out.append(("aare-no-title", ["recv", ["aare", "1", "none", "none", "none", f"glo:{sc}:{fresh + 17}:junk:10"], None, "bad-tag"]))
+            # genuine APDUs recorded long ago: counters far below the current one (also more than 2^31 below it)
+            floor = c.mic          # (what the connection remembered from the start: it never goes below that)
+            for j, old in enumerate(sorted({0, 2, max(floor - 2 ** 31 - 3, 0), max(floor - 2 ** 31 + 1, 0), max(floor - 2 ** 31, 0), floor // 2, floor})):
+                if old <= floor:
+                    ct = f"seal:{EK[0]}:{EK[1]}:{MT}:{old}:{sc}:{AK[0]}:{AK[1]}:s.getRespNormal"
+                    out.append(("recorded-long-ago", ["recv", ["ggc", MT, str(sc), str(old), ct], None, "old-counter"]))
             out.append(("aare-short-text", ["recv", ["aare", "0", "5", WRONG_TITLE, "d1d2d3d4d5d6d7d8", f"glo:{sc}:{fresh + 14}:short"], None, "short"]))
             out.append(("rlre-short-text", ["recv", ["rlre", f"glo:{sc}:{fresh + 15}:short"], None, "short"]))
         return out
@@ -157,7 +166,9 @@ class C07(fw.Prop):
         # a pre-established ciphered association that does not know the meter's title yet: nothing can be authenticated,
         # and nothing a refused APDU carries may be remembered
         cfgs["pre-ciphered-notitle"] = cl.Cfg(pre=True, state="READY", ek=EK, ak=AK, meter_title=None, cic=7, mic=3)
-        for name in ("plain", "hls", "pre-ciphered", "pre-ciphered-notitle"):
+        # ... and one whose meter has counted past 2^31
+        cfgs["pre-ciphered-highmic"] = cl.Cfg(pre=True, state="READY", ek=EK, ak=AK, meter_title=MT, cic=6, mic=0x80000000)
+        for name in ("plain", "hls", "pre-ciphered", "pre-ciphered-notitle", "pre-ciphered-highmic"):
             cfg = cfgs[name]
             for st in STATES:
                 if Path(name, cfg).to_state(st) is None:
@@ -203,6 +214,19 @@ class C07(fw.Prop):
                                 cont += [["hls"], ["send", "actReq", 1], p.resp("actRespData", p.valid_proof(123))]
                             cont += [["send", "getReq", 1], p.resp("getRespNormal")]
                         yield self.make_case({"cfg": cfg.to_json(), "cfgname": name, "ops": base + [bad] + cont, "bad": len(base), "tag": tag + "+long"})
+                # the same refused input three and five times in a row (no genuine APDU in between), then the genuine continuation
+                if st in ("READY", "AWAITING_GET_RESPONSE", "AWAITING_ASSOCIATION_RESPONSE", "AWAITING_HLS_CLIENT_CHALLENGE_RESULT"):
+                    for i in range(n_bad):
+                        for times in (3, 5):
+                            p = Path(name, cfg)
+                            base = p.to_state(st)
+                            good = p.resp(*g) if g else None
+                            tag, bad = self.bad_inputs(p, rng, good, deep)[i]
+                            if tag in ("truncate", "bitflip", "wrong-kind", "odd-proof", "plain-on-ciphered", "random") and not deep:
+                                continue
+                            cont = ([p.resp(*g)] if g else []) + [["send", "getReq", 1]]
+                            yield self.make_case({"cfg": cfg.to_json(), "cfgname": name, "ops": base + [bad] * times + cont, "bad": len(base),
+                                                  "tag": f"{tag}x{times}"})
                 # replay: the genuine answer twice
                 if g and Path(name, cfg).ciphered:
                     p = Path(name, cfg)
